@@ -1118,6 +1118,15 @@ def _starts_with(I, info, args):
     p = as_str(I, args[1])
     if s.concrete() and p.concrete():
         return s.s.startswith(p.s)
+    if p.concrete() and not s.concrete() and s.s.get_id() in I.ctx.dom:
+        # finite-domain string: decide the prefix test on the domain (exact)
+        dom = I.ctx.dom[s.s.get_id()]
+        yes = [v for v in dom if v.startswith(p.s)]
+        if not yes:
+            return False
+        if len(yes) == len(dom):
+            return True
+        return z3.Or([s.s == z3.StringVal(v) for v in yes]) if len(yes) > 1 else (s.s == z3.StringVal(yes[0]))
     return z3.PrefixOf(p.z(), s.z())
 
 
